@@ -90,6 +90,27 @@ def run(args) -> int:
             gid = len(jobs)
             jobs.append(dict(sp, logic=b, role='weak', group=gid, pair=[a, b], configs=CFG, timeout_ms=2500))
             jobs.append(dict(sp, logic=a, role='strong', group=gid, pair=[a, b], configs=CFG, timeout_ms=2500))
+    # a base logic with a rule outside the soundness theorem (C01's obligation refuted): C11_general says nothing
+    # about what that rule proves, so look for an argument it proves that the extension refutes
+    known_open = {k for (pid_, k), f in chk.known.items() if pid_ == 'C11' and f.get('status') == 'open'}
+    rule_by = {(n, it['name']): it for n in rules for it in rules[n]['rules']}
+    targeted = {}
+    for a, b in pairs:
+        if f'extension:{a}>{b}:validity-lost' in known_open:
+            continue
+        for rn in info[b]['bad_rules']:
+            rule = rule_by.get((b, rn))
+            if not rule or rule.get('kind') != 'op':
+                continue
+            cands = c03.candidate_args(rule)
+            rng.shuffle(cands)
+            for prems, concl in cands[:(80 if args.tier == 'quick' else 400)]:
+                gid = len(jobs)
+                sp = dict(premises=prems, conclusion=concl)
+                jobs.append(dict(sp, logic=b, role='weak', group=gid, pair=[a, b], configs=CFG, timeout_ms=2500))
+                jobs.append(dict(sp, logic=a, role='strong', group=gid, pair=[a, b], configs=CFG, timeout_ms=2500))
+                targeted[gid] = rn
+            chk.count('targeted_search', f'{a}>{b}:{rn}')
     for i, j in enumerate(jobs):
         j['id'] = i
     res = probe_json('probe_verdicts.py', stdin=json.dumps(dict(jobs=jobs)), timeout=6000)['results']
